@@ -88,7 +88,13 @@ def rebuild(s3, *, point_fn=None, residue_fn=None, keep=None, atom_keep=None, at
             new = ident_fn(ri, r.chain, r.number)
             ch, num = new[0], new[1]
             label = ResidueLabel(ch, num, r.label.name) if r.label is not None else None
-            if len(new) == 3:
+            if len(new) == 4:
+                # (chain, author number, insertion code, label number): both identities, numbered differently, as
+                # in mmCIF files whose author numbering starts at 0 or below while label_seq_id counts from 1
+                nm = r.auth.name if r.auth is not None else r.label.name
+                auth = ResidueAuth(ch, num, new[2], nm)
+                label = ResidueLabel(ch, new[3], nm)
+            elif len(new) == 3:
                 # (chain, number, insertion code): only the author identity can carry the code, and label numbers
                 # (label_seq_id) are unique per residue in real files, so the rebuilt residue is PDB-like: author
                 # identity only
@@ -181,7 +187,7 @@ def st_mini(files, max_extra=4):
         # identities: as in the file, or rewritten so that neighbours share a number and differ by insertion code
         # (20, 20A, 20B as in tRNA numbering), numbers descend in file order, or the chains appear in reverse
         # alphabetical order - shapes the corpus hardly contains
-        relabel = draw(st.sampled_from([None, None, None, "icode-runs-2", "icode-runs-3", "descending", "chains-reversed"]))
+        relabel = draw(st.sampled_from([None, None, None, "icode-runs-2", "icode-runs-3", "descending", "chains-reversed", "author-from-zero", "author-from-minus-2"]))
         # residues reduced to a fragment, as in base-only ligands, coarse models or truncated deposits
         strip = []
         for slot in range(len(idx)):
@@ -247,6 +253,9 @@ def mini_ident_fn(relabel, idx):
             return ("A", 20 + s // r, None if s % r == 0 else chr(ord("A") + s % r - 1))
         if relabel == "descending":
             return ("A", 100 - 3 * s, None)
+        if relabel in ("author-from-zero", "author-from-minus-2"):
+            first = 0 if relabel == "author-from-zero" else -2
+            return ("A", first + s, None, 1 + s)
         if relabel == "chains-reversed":
             half = (n + 1) // 2
             return ("T" if s < half else "P", 1 + s, None)
